@@ -1,6 +1,6 @@
 """C05 — framing is invariant under how the transport splits the byte stream."""
 from ..e1 import Harness
-from . import c09
+from . import c09_e1_experiment as c09
 
 PROP_ID = "C05"
 FEATURE = "c05"
